@@ -1,9 +1,11 @@
 import CoapVerif.Driver.Block
 import CoapVerif.Model.BlockTok
+import CoapVerif.Model.BlockNetTok
 /- Line-protocol driver for Model/BlockTok.lean (C09): the client's Block2 receive path with `sent` possibly NULL (`crcvs`)
    and `coap_check_update_token` (`ctok`).  Output formats mirror harness/block.c (`do_crcv_x`, `do_ctok`). -/
 -- DRIVER-OPS: crcvs => Coap.Driver.BlockTok.crcvsLine
 -- DRIVER-OPS: ctok => Coap.Driver.BlockTok.ctokLine
+-- DRIVER-OPS: crcvt => Coap.Driver.BlockTok.crcvtLine
 namespace Coap.Driver.BlockTok
 open Coap Coap.Block Coap.Driver.Block
 
@@ -62,6 +64,61 @@ def ctokLine (args : List String) : String :=
       if tok.length > 8 ∨ crcvs.length > 8 ∨ xmits.length > 8 then "bad-op"
       else "M " ++ hexOrDash (checkUpdateToken crcvs xmits (isReq != 0) tok)
     | _, _, _, _ => "bad-op"
+  | _ => "bad-op"
+
+/-! ## `crcvt`: the same with tokens (Model/BlockNetTok.lean); output format of `do_crcvt` -/
+
+def showCliT (c : CliT) : String :=
+  if c.crcvs.isEmpty then "/-" else
+  "/" ++ String.intercalate "|" (c.crcvs.map fun e =>
+    s!"{hexOrDash e.appTok}.{stateTokenBase e.state}.{e.retry}.{showCrcvState (some e.lg)}")
+
+def appTokT : Bytes := [0xa1, 0xa1, 0xa1, 0xa1]
+
+def crcvtRun (single : Bool) (body : Bytes) (size2 : Option Nat) (tx0 : Nat) :
+    List String → CliT → Bytes → List String → List String
+  | [], _, _, acc => acc.reverse
+  | it :: rest, c, last, acc =>
+    if it = "n" then
+      let c' := cliSendT c appTokT
+      crcvtRun single body size2 tx0 rest c' appTokT (("n+q?t" ++ hexOrDash appTokT ++ showCliT c') :: acc)
+    else if it.startsWith "x" then
+      match (it.drop 1).toString.toNat? with
+      | some i =>
+        let c' := cliExpireT c i
+        crcvtRun single body size2 tx0 rest c' last (("x" ++ showCliT c') :: acc)
+      | none => ("bad-op" :: acc).reverse
+    else
+    match splitNats it '.' with
+    | some [t, u, num, m, szx, etag, fmt] =>
+      if t > 2 ∨ u > 2 ∨ szx > 6 ∨ m > 1 ∨ etag > 255 ∨ fmt > 255 then ("bad-op" :: acc).reverse else
+      let tok : Bytes := if t = 0 then appTokT else if t = 1 then last
+                         else encodeVar8 (stateTokenFull ((tx0 + 1000) % 2 ^ 64) 3)
+      let chunk := 2 ^ (szx + 4)
+      let off := if num * chunk > body.length then body.length else num * chunk
+      let plen := if body.length - off < chunk then body.length - off else chunk
+      let r : Resp := { blk := some (num, m, szx), payload := (body.drop off).take plen, size2 := size2,
+                        etag := if etag = 0 then none else some [UInt8.ofNat etag], fmt := fmt }
+      let sentTok : Option Bytes := if u = 1 then none else if u = 2 then some tok else some appTokT
+      let res := crcvStepT single Coap.Generated.rblockCnt 0 c sentTok tok r
+      let x := res.2
+      let line := showCrcvOut x.out ++ (match x.reqTok with | some t => "t" ++ hexOrDash t | none => "") ++
+        (if callsHandler x.out then "T" ++ hexOrDash x.shown else "") ++ showCliT res.1
+      crcvtRun single body size2 tx0 rest res.1 (match x.reqTok with | some t => t | none => last) (line :: acc)
+    | _ => ("bad-op" :: acc).reverse
+
+def crcvtLine (args : List String) : String :=
+  match args with
+  | [a, b, c, d, e, f, seq] =>
+    match nat? a, nat? b, nat? c, nat? e, nat? f with
+    | some single, some bodyLen, some seed, some init, some tx0 =>
+      if tx0 ≥ 2 ^ 64 then "bad-op" else
+      let c0 : CliT := { txTok := tx0 }
+      "M " ++ String.intercalate ","
+        (crcvtRun (single != 0) (mkBody bodyLen seed) (if d = "-" then none else nat? d) tx0
+          ((seq.split (· == ',')).toList.map (·.toString))
+          (if init != 0 then cliSendT c0 appTokT else c0) appTokT [])
+    | _, _, _, _, _ => "bad-op"
   | _ => "bad-op"
 
 end Coap.Driver.BlockTok
